@@ -86,7 +86,7 @@ type Handle = Box<dyn Droppable>;
 // ---------------------------------------------------------------------------------------
 // programs / actions
 
-pub const SHAPES: [&str; 19] = [
+pub const SHAPES: [&str; 20] = [
     "chain",
     "diamond",
     "bind_fresh",
@@ -106,6 +106,7 @@ pub const SHAPES: [&str; 19] = [
     "inner_invalidated",
     "inner_pending_invalidation",
     "shared_fanout",
+    "memo_in_bind",
 ];
 
 #[derive(Clone, Copy, Debug, PartialEq, Eq)]
@@ -674,6 +675,39 @@ fn build_shape(shape: &str, cx: &mut Cx, st: &IncrState) -> bool {
             cx.handle("v", v);
             cx.handle("memo_fn", f);
             cx.handle("n1", n1);
+            cx.handle("o", o);
+        }
+        // the memoised function lives inside a bind closure (a node closure owns it); the bind is observed, so the
+        // state's own observer table reaches the closure: nothing in it may keep the state alive (after seed C12-d)
+        "memo_in_bind" => {
+            let v = st.var(cx.val(1));
+            let sel = st.var(cx.val(0));
+            let (tf, tin, tb) = (cx.tok("memo.f"), cx.tok("memo.node_fn"), cx.tok("bind"));
+            let vw = v.watch();
+            let mut f = st.weak_memoize_fn(move |k: i32| {
+                let _ = &tf;
+                let t2 = tin.clone();
+                vw.map(move |x| {
+                    let _ = &t2;
+                    x.with(x.v + k)
+                })
+            });
+            let b = sel.bind(move |s| {
+                let _ = &tb;
+                f(s.v % 2)
+            });
+            let o = b.observe();
+            cx.weak("v", &v.watch());
+            cx.weak("sel", &sel.watch());
+            cx.weak("b", &b);
+            if cx.settle(st) {
+                sel.set(cx.val(1));
+            }
+            cx.extra("o.clone", o.clone());
+            cx.extra("b.clone", b.clone());
+            cx.handle("v", v);
+            cx.handle("sel", sel);
+            cx.handle("b", b);
             cx.handle("o", o);
         }
         "subscription" => {
